@@ -9,6 +9,7 @@ mod c05;
 mod c08;
 mod c09;
 mod c10;
+mod c11;
 mod c12;
 mod c20;
 
@@ -89,6 +90,8 @@ fn main() {
     ("C09", Some(d)) => c09::replay(&d),
     ("C10", None) => c10::run(&tier),
     ("C10", Some(d)) => c10::replay(&d),
+    ("C11", None) => c11::run(&tier),
+    ("C11", Some(d)) => c11::replay(&d),
     ("C12", None) => c12::run(&tier),
     ("C20", None) => c20::run(&tier),
     ("C20", Some(d)) => c20::replay(&d),
